@@ -61,6 +61,13 @@ def semEquiv (A B : DemogSem) : Bool :=
   A.pops.length = B.pops.length && (A.pops.zip B.pops).all (fun ab => popEquiv ab.1 ab.2)
   && A.migs = B.migs && A.moves = B.moves
 
+/-- the first two components of `semEquiv`: the same populations with the same lifetimes, sizes and
+growth rates at every cut point, and the same migration step function (lineage movements left
+aside) -/
+def semEquivSizesMigs (A B : DemogSem) : Bool :=
+  A.pops.length = B.pops.length && (A.pops.zip B.pops).all (fun ab => popEquiv ab.1 ab.2)
+  && A.migs = B.migs
+
 /-- both demographies exist and are equivalent -/
 def SemAgree (r₁ r₂ : Except String DemogSem) : Bool :=
   match r₁, r₂ with
@@ -284,6 +291,102 @@ def isArgTok (s : String) : Bool := match Demes.Ms.classify s with | .ok Demes.M
 matches it, not even as a prefix): `-t`, `-T`, `-r`, `-seeds`, `-p`, `-s`, `-L`, `-c`, … -/
 def isUnknownTok (s : String) : Bool := match Demes.Ms.classify s with | .ok Demes.Ms.Cls.unknown => true | _ => false
 
+/-! ## the command lines on which the two parsers read the same options
+
+argparse (`parse_known_args`) and the ms manual cut a command line into options in different
+ways: argparse gives an option the strings after it that do not look like options (`isArgTok`;
+exactly `n` of them for a fixed-arity option, all of them for `-I`, `-ma`, `-ema`), skips every
+string it cannot place, and accepts attached arguments (`-G0.5`, `-G=0.5`); the manual gives every
+option a fixed number of strings, whatever they look like.  `PlainTokens` is the set of command
+lines written the way the manual and `to_ms` write them: a sequence of groups, each an option
+followed by exactly the arguments the manual gives it, all of which argparse takes for arguments. -/
+
+/-- the options of the table of `build_parser` -/
+def knownFlags : List String := Demes.Ms.arity.map (·.1)
+
+/-- the options without demographic meaning of the ms manual -/
+def ignoredFlags : List String := ignoredArity.map (·.1)
+
+/-- a string that is an argument for argparse, or is exactly one of the options of the two tables
+(no abbreviation, no attached argument, no `--`, no other unknown option) -/
+def plainTok (s : String) : Bool := isArgTok s || knownFlags.contains s || ignoredFlags.contains s
+
+/-- the number of strings at the head of the list that argparse takes for arguments -/
+def argRun : List String → Nat
+  | [] => 0
+  | s :: r => if isArgTok s then argRun r + 1 else 0
+
+/-- the number of populations announced by the first `-I` (1 without `-I`) -/
+def structNpop : List String → Nat
+  | [] => 1
+  | s :: r =>
+    if s = "-I" then
+      match r with
+      | n :: _ => ((Demes.Ms.pyInt n).getD 1).toNat
+      | [] => 1
+    else structNpop r
+
+/-- the option `flag`, followed by the strings `rest`, has exactly the arguments of the ms manual:
+the strings after it that argparse takes for arguments (`argRun rest`) are
+* `-I`: `npop`, `npop` sample sizes and possibly a migration rate (a number not starting with `-`);
+* `-ma`: `npop²` matrix entries (`npop` of the command's `-I`);
+* `-ema`: `t`, `npop`, `npop²` matrix entries;
+* any other option of `build_parser`: as many as its `nargs`;
+* an option without demographic meaning: as many as the manual says (`ignoredArity`). -/
+def groupOK (npop0 : Nat) (flag : String) (rest : List String) : Bool :=
+  let k := argRun rest
+  if flag = "-I" then
+    match rest with
+    | nS :: _ =>
+      match Demes.Ms.pyInt nS with
+      | some n =>
+        decide (1 ≤ n) &&
+          (k == 1 + n.toNat ||
+            (k == 2 + n.toNat && (isNumberLike (rest.getD (1 + n.toNat) "") && !((rest.getD (1 + n.toNat) "").startsWith "-"))))
+      | none => false
+    | [] => false
+  else if flag = "-ma" then k == npop0 * npop0
+  else if flag = "-ema" then
+    match rest with
+    | _ :: nS :: _ =>
+      match Demes.Ms.pyInt nS with
+      | some n => decide (1 ≤ n) && k == 2 + n.toNat * n.toNat
+      | none => false
+    | _ => false
+  else
+    match Demes.Ms.arity.lookup flag with
+    | some (.fixed n) => k == n
+    | some .plus => false
+    | none =>
+      match ignoredArity.lookup flag with
+      | some n => k == n
+      | none => false
+
+/-- `p s r` holds wherever the list is `… s :: r` -/
+def everySuffix (p : String → List String → Bool) : List String → Bool
+  | [] => true
+  | s :: r => p s r && everySuffix p r
+
+/-- a plain ms command line: every string is an argument or exactly an option of the tables; the
+line starts with an option; `-I` is given at most once; every option is followed by exactly the
+arguments of the manual (`groupOK`) -/
+def PlainTokens (tokens : List String) : Bool :=
+  tokens.all plainTok
+  && (match tokens with | s :: _ => !isArgTok s | [] => true)
+  && decide (tokens.count "-I" ≤ 1)
+  && everySuffix (fun flag rest => isArgTok flag || groupOK (structNpop tokens) flag rest) tokens
+
+/-- the string does not read as `inf` or `nan` -/
+def finTok (s : String) : Bool :=
+  match Demes.Ms.pyFloat s with
+  | some (.fin _) => true
+  | some _ => false
+  | none => true
+
+/-- no string of the command line reads as `inf` or `nan` (the ms interpreter has no meaning for
+them; the validators of ms.py let them through in several positions) -/
+def FiniteToks (tokens : List String) : Bool := tokens.all finTok
+
 /-! ## the final deme order -/
 
 /-- `ys` is `xs` stably sorted by descending `key` (a start time, possibly infinite): a
@@ -292,5 +395,181 @@ structure StableSortedDescE {α} (key : α → ETime) (xs ys : List α) : Prop w
   perm : ys.Perm xs
   sorted : ys.Pairwise (fun a b => key b ≤ key a)
   stable : ∀ k : ETime, ys.filter (fun a => key a = k) = xs.filter (fun a => key a = k)
+
+
+/-! ## after the event loop (the vocabulary of the post-pass theorems) -/
+
+section Post
+open Demes.Ms
+
+/-- the migration is active at `t`: `end_time ≤ t < start_time` -/
+def covers (t : Q) (m : BMigration) : Bool := decide (m.endTime ≤ t) && decide (ETime.fin t < m.startTime)
+
+/-- the migration goes into deme `j` from deme `k` (backwards in time: lineages move `j → k`) -/
+def pairIs (names : List String) (j k : Nat) (m : BMigration) : Bool :=
+  decide (m.dest = names.getD j "") && decide (m.source = names.getD k "")
+
+/-- the rates of the migrations of the pair `(j, k)` that are active at `t` -/
+def activeRates (names : List String) (migs : List BMigration) (j k : Nat) (t : Q) : List Num :=
+  ((migs.filter (pairIs names j k)).filter (covers t)).map (·.rate)
+
+/-- what `activeRates` must be when the matrix entry in force is `r?`: nothing where no matrix is
+in force or the entry is zero, exactly the entry otherwise -/
+def expectedRates : Option Num → List Num
+  | some r => if numEq r (.fin 0) then [] else [r]
+  | none => []
+
+/-- every emitted migration goes between two different demes of the list and has
+`end_time < start_time` -/
+def MigsWF (names : List String) (migs : List BMigration) : Prop :=
+  ∀ mg ∈ migs, ∃ j k, j < names.length ∧ k < names.length ∧ j ≠ k ∧ pairIs names j k mg = true
+    ∧ ETime.fin mg.endTime < mg.startTime
+
+/-- `m["rate"] /= 4 * N0` -/
+def scaleMig (N0 : Q) (m : BMigration) : BMigration := { m with rate := numDivQ m.rate (4 * N0) }
+
+/-- a deme `_remove_transient_demes` deletes: finite non-zero `start_time` equal to the end time
+of its last epoch -/
+def isTransient (d : BDeme) : Bool :=
+  match d.startTime with
+  | .fin st => decide (st ≠ 0) && decide (st = lastEndTime d)
+  | .inf => false
+
+/-- what the assertions of `_remove_transient_demes` say about a deleted deme: no pulse, no
+migration and none of the demes `cur` (as an ancestor) refers to it -/
+def Unreferenced (doc : MsDoc) (cur : List BDeme) (d : BDeme) : Prop :=
+  (∀ p ∈ doc.pulses.getD [], d.name ∉ p.sources ∧ p.dest ≠ d.name) ∧
+  (∀ m ∈ doc.migrations, m.source ≠ d.name ∧ m.dest ≠ d.name) ∧
+  (∀ o ∈ cur, d.name ∉ o.ancestors.getD [])
+
+/-- the epochs `Demes.resolve` builds from the explicit epoch list of a Builder deme -/
+def epochsOf (tab : List (Sz × Q)) : ETime → List BEpoch → List Epoch
+  | _, [] => []
+  | st, e :: r =>
+    { startTime := st, endTime := e.endTime,
+      startSize := szToQ tab (e.startSize.getD e.endSize), endSize := szToQ tab e.endSize,
+      sizeFunction := if szToQ tab (e.startSize.getD e.endSize) = szToQ tab e.endSize then "constant" else "exponential",
+      selfingRate := 0, cloningRate := 0 } :: epochsOf tab (.fin e.endTime) r
+
+/-- the segment `graphSem` shows for a closed Builder epoch that runs up to `st` (sizes decoded) -/
+def gseg (st : ETime) (e : BEpoch) : Seg :=
+  { t0 := e.endTime, t1 := st, size := e.endSize, growth := none, sizeOld := some (e.startSize.getD e.endSize),
+    fn := if e.startSize.getD e.endSize = e.endSize then "constant" else "exponential" }
+
+/-- the segments `graphSem` shows for the closed epochs (most ancient first) of a deme that
+starts at `st` -/
+def gsegs : ETime → List BEpoch → List Seg
+  | _, [] => []
+  | st, e :: r => gseg st e :: gsegs (.fin e.endTime) r
+
+/-- the segment `graphSem` shows for an epoch (`dec` decodes a stored size) -/
+def epSeg (dec : Q → Sz) (e : Epoch) : Seg :=
+  { t0 := e.endTime, t1 := e.startTime, size := dec e.endSize, growth := none,
+    sizeOld := some (dec e.startSize), fn := e.sizeFunction }
+
+end Post
+/-! ## link C: the lineage movements of one time group
+
+An ms time group moves lineages by `-es` / `-ej`.  Read as moves "a fraction `q` of the lineages
+of population `a` goes to population `h`" (`groupOps`): `-es i p` immediately followed (among the
+`-es`/`-ej` of the group) by `-ej n+1 k`, `n+1` the population the split creates, is an admixture
+`(i, k, 1-p)`; any other `-es i p` is `(i, n+1, 1-p)`; `-ej i j` is `(i, j, 1)`.  `GoodGroup`: no
+population is split or joined after it has received lineages in the same group, every split has
+`0 < p ≤ 1`, and the group is not at time 0.  `groupMoves` reads the movement rows of one time off
+Builder data (demes with `start_time` / `ancestors` / `proportions`, pulses) the way `graphSem`
+reads them off a graph. -/
+
+/-- a pending `-es i p` (it created population `n`): the move `(i, n, q)`, `q = 1 - p` -/
+def flushOp (n : Nat) : Option (Nat × Q) → List (Nat × Nat × Q)
+  | some (i, q) => [(i, n, q)]
+  | none => []
+
+/-- `groupOps` with its state: `n` populations exist; `pend = some (i, q)` when the last
+`-es`/`-ej` option seen was `-es i (1-q)` (which created population `n`) -/
+def groupOpsAux : Nat → Option (Nat × Q) → List Cmd → List (Nat × Nat × Q)
+  | n, pend, [] => flushOp n pend
+  | n, pend, .split _ i p :: tl => flushOp n pend ++ groupOpsAux (n + 1) (some (i, 1 - p)) tl
+  | n, pend, .join _ a k :: tl =>
+    match pend with
+    | some (i, q) => if a = n then (i, k, q) :: groupOpsAux n none tl else (i, n, q) :: (a, k, 1) :: groupOpsAux n none tl
+    | none => (a, k, 1) :: groupOpsAux n none tl
+  | n, pend, _ :: tl => groupOpsAux n pend tl
+
+/-- the moves `(a, h, q)` (populations numbered from 1) of the `-es` / `-ej` options of one time
+group, in command order; `n` populations exist before the group -/
+def groupOps (n : Nat) (cmds : List Cmd) : List (Nat × Nat × Q) := groupOpsAux n none cmds
+
+/-- no move has as its source `a` a population that was the target `h` of an earlier move -/
+def noSourceAfterTarget : List (Nat × Nat × Q) → Bool
+  | [] => true
+  | o :: r => r.all (fun o' => decide (o.2.1 ≠ o'.1)) && noSourceAfterTarget r
+
+/-- a time group (options of one time, command order; `n` populations exist before it) whose
+lineage movements `from_ms` encodes faithfully -/
+def GoodGroup (n : Nat) (cmds : List Cmd) : Bool :=
+  noSourceAfterTarget (groupOps n cmds)
+  && cmds.all (fun c => match c with | .split _ _ p => decide (0 < p) && decide (p ≤ 1) | _ => true)
+  && (cmds.filter isMove).all (fun c => decide (0 < c.t))
+
+/-- every time group is good; `n` populations exist before the first one -/
+def goodGroups : Nat → List (List Cmd) → Bool
+  | _, [] => true
+  | n, g :: rest => GoodGroup n g && goodGroups (n + (g.filter isSplitC).length) rest
+
+/-- the fragment on which the lineage movements are proved: every time group is a `GoodGroup` -/
+def Tame' (pr : Parsed) : Bool := goodGroups pr.npop (cmdGroups pr)
+
+/-! ### reading the movements of one time off Builder data -/
+
+/-- `epochs[-1].end_time` -/
+def bEndTime (d : Demes.Ms.BDeme) : Q := (d.epochs.getLast?.map (·.endTime)).getD 0
+
+/-- the ancestors of a Builder deme as `resolve` reads them -/
+def bAncestors (d : Demes.Ms.BDeme) : List String := d.ancestors.getD []
+
+/-- the proportions of a Builder deme as `resolve` reads them (one ancestor: `[1]` by default) -/
+def bProportions (d : Demes.Ms.BDeme) : List Q :=
+  d.proportions.getD (if (bAncestors d).length = 1 then [1] else [])
+
+/-- a deme `_remove_transient_demes` keeps -/
+def nonTransient (d : Demes.Ms.BDeme) : Bool :=
+  match d.startTime with
+  | .inf => true
+  | .fin st => st = 0 || st ≠ bEndTime d
+
+/-- one pulse, applied to every row (as in `graphSem`) -/
+def pulseRows (dest : Nat) (srcs : List Nat) (props : List Q) (L : List (Nat × Row)) : List (Nat × Row) :=
+  let tot := props.foldl (· + ·) 0
+  L.map (fun (ir : Nat × Row) =>
+    let m := ir.2.get dest
+    if m = 0 then ir else
+    (ir.1, (srcs.zip props).foldl (fun (r : Row) sp => r.add sp.1 (m * sp.2)) (ir.2.set dest (m * (1 - tot)))))
+
+/-- the ancestry of one deme born at the time, applied to every row (as in `graphSem`) -/
+def bornRows (me : Nat) (ancs : List Nat) (props : List Q) (L : List (Nat × Row)) : List (Nat × Row) :=
+  L.map (fun (ir : Nat × Row) =>
+    let m := ir.2.get me
+    if m = 0 then ir else
+    (ir.1, (ancs.zip props).foldl (fun (r : Row) ap => r.add ap.1 (m * ap.2)) (ir.2.set me 0)))
+
+/-- the movement rows at time `T` that Builder data denote, computed as `graphSem` computes them
+for a graph: rows are the (non-transient) demes that exist just before `T`; the pulses of time
+`T` are applied in the order the Builder appended them (a graph lists them in the opposite order
+and `graphSem` walks that list backwards), then the ancestry of the demes that start at `T` -/
+def groupMoves (names : List String) (T : Q) (demes : List Demes.Ms.BDeme) (pulses : List Demes.Ms.BPulse) :
+    Except String (List (Nat × Row)) := do
+  let ds := demes.filter nonTransient
+  let rowsD := ds.filter (fun d => decide (bEndTime d < T) && decide (ETime.fin T ≤ d.startTime))
+  let L0 ← rowsD.mapM (fun d => do let id ← popId names d.name; pure (id, ([(id, (1 : Q))] : Row)))
+  let ps := pulses.filter (fun p => p.time = T)
+  let L1 ← ps.foldlM (fun (L : List (Nat × Row)) (p : Demes.Ms.BPulse) => do
+    let dest ← popId names p.dest
+    let srcs ← p.sources.mapM (popId names)
+    pure (pulseRows dest srcs p.proportions L)) L0
+  let born := ds.filter (fun d => d.startTime = ETime.fin T)
+  born.foldlM (fun (L : List (Nat × Row)) (d : Demes.Ms.BDeme) => do
+    let me ← popId names d.name
+    let ancs ← (bAncestors d).mapM (popId names)
+    pure (bornRows me ancs (bProportions d) L)) L1
 
 end Demes.Spec.C08
